@@ -135,6 +135,15 @@ func values(seed uint64, n int, emptyEO bool) {
 				if dcls == "ok" {
 					o["dval"] = dumpTop(d)
 					o["consumed"] = m
+					b2, cls2 := safeEncode(d.Interface())
+					o["re"] = cls2
+					// the decoded value must be a fixed point: encode it again, decode, compare the trees
+					if cls2 == "ok" {
+						d2, m2, cls3 := safeDecode(t.T, b2)
+						o["resame"] = cls3 == "ok" && m2 == len(b2) && dumpTop(d2) == o["dval"]
+					} else {
+						o["resame"] = false
+					}
 				}
 			}
 			enc.Encode(o)
